@@ -32,9 +32,13 @@ Record oinst := mkOI {
   o_sd_victim : bool;          (* ... already when its last command exited *)
   o_byapi : bool;              (* spawned by StartProcess / RestartProcess (not by Run) *)
   o_gone : bool;               (* its goroutine reached inst_exit *)
-  o_commit : bool }.           (* passed its "am I being terminated" check / back-off, launch is next *)
+  o_commit : bool;             (* passed its "am I being terminated" check / back-off, launch is next *)
+  o_reg : bool;                (* addRunningProcess happened: o_idx is its registration index (first ERegAdd) *)
+  o_waits : list (name * option iid * nat) }.
+                               (* per dependency name: the instance its lookup returned (dep_wait), or None together
+                                  with the registration counter at the moment its running-registry lookup missed *)
 #[export] Instance eta_oinst : Settable _ :=
-  settable! mkOI <o_nm; o_idx; o_launches; o_alive; o_code; o_endst; o_ended; o_started; o_stopreq; o_logok; o_succ; o_depfail; o_elapsed; o_sigs; o_insnap; o_sd_victim; o_byapi; o_gone; o_commit>.
+  settable! mkOI <o_nm; o_idx; o_launches; o_alive; o_code; o_endst; o_ended; o_started; o_stopreq; o_logok; o_succ; o_depfail; o_elapsed; o_sigs; o_insnap; o_sd_victim; o_byapi; o_gone; o_commit; o_reg; o_waits>.
 
 Record oname := mkON { r_status : status; r_code : Z; r_ready : bool (* Health was Ready at some time *);
                        r_restarts : nat (* reported restart counter of the name *) }.
@@ -68,17 +72,18 @@ Record obs := mkObs {
   (* is the project exit code already fixed (exitCodeOnce.Do has run)?  It directly follows the exit_trigger
      trace point, so it has run as soon as a goroutine that logged exit_trigger logs anything else *)
   o_trig_th : list tid;             (* goroutines that have logged an exit_trigger *)
-  o_code_fixed : bool }.            (* ... and one of them has moved on since (resume / shutdown_call / exit_code_set); sticky *)    (* instances registered by an explicit start request after the last completed shutdown *)
+  o_code_fixed : bool;
+  o_lk : amap (name * nat) }.       (* thread -> (name, registration counter) of its last getRunningProcess miss *)            (* ... and one of them has moved on since (resume / shutdown_call / exit_code_set); sticky *)    (* instances registered by an explicit start request after the last completed shutdown *)
 #[export] Instance eta_obs : Settable _ :=
-  settable! mkObs <oi; onm; o_cnt; o_th; o_api; o_sd_done; o_sd_snap; o_sd_cur; o_triggers; o_run_ret; o_after_sd_spawn; o_stopstage; o_stopinst; o_instop; o_spawning; o_api_sd_first; w_commit; w_late; w_sdspawn; w_dup; w_sdlag; w_zombie; w_stale; o_trig_th; o_code_fixed>.
+  settable! mkObs <oi; onm; o_cnt; o_th; o_api; o_sd_done; o_sd_snap; o_sd_cur; o_triggers; o_run_ret; o_after_sd_spawn; o_stopstage; o_stopinst; o_instop; o_spawning; o_api_sd_first; w_commit; w_late; w_sdspawn; w_dup; w_sdlag; w_zombie; w_stale; o_trig_th; o_code_fixed; o_lk>.
 
 Definition obs0 (cs : amap pconf) : obs :=
   mkObs [] (map (fun p => (fst p, mkON (if deferred (snd p) then SDisabled else SPending) 0 false 0)) cs)
-        0 [] [] 0 [] [] [] None [] [] [] [] false false false false false false false false false [] false.
+        0 [] [] 0 [] [] [] None [] [] [] [] false false false false false false false false false [] false [].
 
 Definition oi_get (o : obs) (i : iid) : oinst :=
   match get i (oi o) with Some x => x
-  | None => mkOI 0%N 0 0 false None None false false false false false false false 0 false false false false false end.
+  | None => mkOI 0%N 0 0 false None None false false false false false false false 0 false false false false false false [] end.
 Definition on_get (o : obs) (n : name) : oname :=
   match get n (onm o) with Some x => x | None => mkON SPending 0 false 0 end.
 Definition oi_upd (i : iid) (f : oinst -> oinst) (o : obs) : obs :=
@@ -123,12 +128,25 @@ Definition obs_step (cs : amap pconf) (o : obs) (te : tid * event) : obs :=
     | ENewInst i n, _ =>
         let byapi := match get th (o_api o) with Some OpRun | None => false | Some _ => true end in
         let dup := existsb (fun y => N.eqb (o_nm y) n && negb (o_ended y)) (vals (oi o)) in
-        (o <| oi := set i (mkOI n (o_cnt o) 0 false None None false false false false false false false 0 false false byapi false false) (oi o) |>
+        (o <| oi := set i (mkOI n (o_cnt o) 0 false None None false false false false false false false 0 false false byapi false false false []) (oi o) |>
            <| w_dup := w_dup o || dup |>
            <| w_zombie := w_zombie o || existsb (fun y => N.eqb (o_nm y) n && o_ended y && negb (o_gone y)) (vals (oi o)) |>
            <| o_cnt := S (o_cnt o) |>
            <| o_after_sd_spawn := if Nat.ltb 0 (o_sd_done o) && byapi then i :: o_after_sd_spawn o else o_after_sd_spawn o |>)
     | EBegin i, _ => o <| o_th := set th i (o_th o) |>
+    | ERegAdd i _, _ =>
+        (* the registration index is assigned at the FIRST addRunningProcess of the instance *)
+        oi_upd i (fun x => x <| o_idx := if o_reg x then o_idx x else o_cnt o |> <| o_reg := true |>)
+               (o <| o_cnt := S (o_cnt o) |>)
+    | ERegGet n None, _ => o <| o_lk := set th (n, o_cnt o) (o_lk o) |>
+    | EDepWait k found, Some i =>
+        (* what getDoneOrRunningProcess(k) returned to the waiting instance; for a miss: everything registered
+           before the running-registry lookup of this thread (if that lookup was not logged: before now) *)
+        let b := match get th (o_lk o) with
+                 | Some (k', b) => if N.eqb k' k then b else o_cnt o
+                 | None => o_cnt o
+                 end in
+        oi_upd i (fun x => x <| o_waits := o_waits x ++ [(k, found, b)] |>) o
     | EApiBegin op, _ => o <| o_api := set th op (o_api o) |>
                            <| o_spawning := match op with OpRun => true | _ => o_spawning o end |>
     | ERunSpawned, _ => o <| o_spawning := false |>
@@ -213,13 +231,29 @@ Definition met (o : obs) (c : cond) (j : oinst) : bool :=
 Definition conf_of (cs : amap pconf) (n : name) : pconf :=
   match get n cs with Some c => c | None => mkConf [] PNo 0 0 false false false false false false false end.
 
+(* instances of k that were registered (addRunningProcess) with a registration index below b *)
+Definition reg_before (o : obs) (k : name) (b : nat) : list oinst :=
+  filter (fun y => o_reg y && N.eqb (o_nm y) k && Nat.ltb (o_idx y) b) (vals (oi o)).
+Definition some_met (o : obs) (c : cond) (J : list oinst) : bool :=
+  match J with [] => true | _ => existsb (met o c) J end.
+Definition wait_of (x : oinst) (k : name) : option (name * option iid * nat) :=
+  find (fun w => N.eqb (fst (fst w)) k) (o_waits x).
+
+(* at every successful launch of instance i, for every dependency (k, c) of its process:
+   - the lookup of k returned instance j (dep_wait k (Some j)): j is an instance of k and has met c;
+   - the lookup found nothing: no instance of k had been registered when the dependent looked into the
+     running registry, or one of those has met c;
+   - the dependent never looked k up: the same, judged against everything registered until now *)
 Definition mon_C01 (cs : amap pconf) (o : obs) (te : tid * event) : bool :=
   match snd te, ev_inst o (fst te) (snd te) with
   | ELaunch true, Some i =>
       let x := oi_get o i in
       forallb (fun d =>
-                 let J := filter (fun y => N.eqb (o_nm y) (fst d) && Nat.ltb (o_idx y) (o_idx x)) (vals (oi o)) in
-                 match J with [] => true | _ => existsb (met o (snd d)) J end)
+                 match wait_of x (fst d) with
+                 | Some (_, Some j, _) => N.eqb (o_nm (oi_get o j)) (fst d) && met o (snd d) (oi_get o j)
+                 | Some (_, None, b) => some_met o (snd d) (reg_before o (fst d) b)
+                 | None => some_met o (snd d) (reg_before o (fst d) (o_cnt o))
+                 end)
               (deps (conf_of cs (o_nm x)))
   | _, _ => true
   end.
